@@ -20,3 +20,4 @@ import Csproto.Props.C18
 #print axioms Csproto.Bridge.jsonProbes_ok
 #print axioms Csproto.Bridge.jsonWiring_ok
 #print axioms Csproto.Bridge.jsonSetters_ok
+#print axioms Csproto.Bridge.jsonOptionWrites_ok
